@@ -103,6 +103,17 @@ var properties = map[string]*propSpec{
 			{Check: "TestC03_Total", Class: "outcome:ErrorFunctionFailed", Min: 0.005},
 		},
 	},
+	"C04": {
+		Title: "Retrieval never modifies the source document",
+		Checks: []checkSpec{
+			{Test: "TestC04_Snapshot", Quick: 30000, Thorough: 400000, Rapid: true},
+			{Test: "TestC04_SharedDocRace", Quick: 150, Thorough: 3000, Rapid: true, Race: true, Flaky: true, Shards: 8},
+		},
+		Assumptions: assume("writes outside the value graph reachable from the source value are not observable", "the race detector reports only conflicting accesses that occur in the run"),
+		Floors: []floor{
+			{Check: "TestC04_Snapshot", Class: "nontrivial", Min: 0.2},
+		},
+	},
 	"C08": {
 		Title: "Steps compose: P followed by Q equals Q applied to each result of P",
 		Checks: []checkSpec{
